@@ -501,10 +501,29 @@ func chanRecvReady(ch reflect.Value) bool {
 	if ch.Len() > 0 {
 		return true
 	}
+	if deliver, ok := timerChans[ch.Pointer()]; ok {
+		return deliver()
+	}
 	// closed and empty: a receive would not block. reflect cannot ask "closed?" without
 	// receiving; TryRecv on an empty channel returns (zero, false) both when nothing is
 	// buffered (open) and when closed — distinguish through the select-default trick.
 	return chanClosed(ch)
+}
+
+// timerChans: channels of virtual tickers (vtime.NewTicker inside an execution). Such a channel is ready when the
+// virtual clock has reached the ticker's next tick; deliver() puts that tick into the (buffered) channel and reports
+// whether one is waiting, so that a select over `<-ticker.C` works like a real one.
+var timerChans = map[uintptr]func() bool{}
+
+// RegisterTimerChan makes ch (a buffered channel owned by a virtual ticker) known to the scheduler for this execution.
+func RegisterTimerChan(ch any, deliver func() bool) {
+	s := Active()
+	if s == nil {
+		return
+	}
+	key := reflect.ValueOf(ch).Pointer()
+	timerChans[key] = deliver
+	s.OnReset(func() { delete(timerChans, key) })
 }
 
 func chanClosed(ch reflect.Value) bool {
